@@ -242,10 +242,22 @@ def make_list_lexer(names, value_of=None):
 def sel(v, K):
     """Concrete index in [0, K) chosen by the symbolic int v: v itself when 0 <= v < K-1, otherwise K-1. Explicit comparisons
     (one cheap fork per value) are about twice as fast under CrossHair as indexing a list with a symbolic `v % K`."""
-    for j in range(K - 1):
-        if v == j:
-            return j
-    return K - 1
+    if K <= 12:
+        for j in range(K - 1):
+            if v == j:
+                return j
+        return K - 1
+    # large domains: bisection (log2 K forks per path instead of K)
+    if v < 0 or v >= K:
+        return K - 1
+    lo, hi = 0, K - 1
+    while lo < hi:
+        mid = (lo + hi) // 2
+        if v <= mid:
+            hi = mid
+        else:
+            lo = mid + 1
+    return lo
 
 
 def kinds_of(ix, names):
@@ -276,6 +288,31 @@ def basic_lexer_of(lark_instance):
 def lex_tokens(lexer, text):
     from lark.lexer import LexerThread
     return LexerThread.from_text(lexer, text).lex(None)
+
+
+def deep(t, meta=True):
+    """Tree/Token -> nested tuples including token positions and tree meta (observational equality of parse results)."""
+    from lark import Tree, Token
+    if isinstance(t, Tree):
+        m = ()
+        if meta:
+            mm = t.meta
+            m = (bool(getattr(mm, 'empty', True)),) + tuple(getattr(mm, k, None) for k in ('start_pos', 'end_pos', 'line', 'column', 'end_line', 'end_column'))
+        return ('tree', str(t.data), m) + tuple(deep(c, meta) for c in t.children)
+    if isinstance(t, Token):
+        return ('token', str(t.type), t.value, t.start_pos, t.end_pos, t.line, t.column, t.end_line, t.end_column)
+    if isinstance(t, (list, tuple)):
+        return tuple(deep(c, meta) for c in t)
+    return t
+
+
+def outcome(fn, *args):
+    """('tree', deep) or ('error', class name, position, line, column) of a parse-like call."""
+    from lark.exceptions import UnexpectedInput
+    try:
+        return ('tree', deep(fn(*args)))
+    except UnexpectedInput as e:
+        return ('error', type(e).__name__, e.pos_in_stream, getattr(e, 'line', None), getattr(e, 'column', None))
 
 
 def plain(t):
